@@ -99,3 +99,9 @@ prop('C08', technique='contract-based deductive verification: marker-erasure lem
                   'which agree by marker erasure'],
      not_covered=['SELECT CASE marker bookkeeping', 'programs executing RESUME (excluded by the property)',
                   'statement generators that consult debug_info_enabled other than gen_if_block / gen_code_for_block'])
+prop('C16', technique='contract-based deductive verification (string VCs) for INTEGER and LONG; bounded native boundary-value enumeration for '
+                      'SINGLE and DOUBLE, labelled bounded',
+     explanation='format_number proved to yield the plain decimal text with leading blank or minus for every INTEGER and LONG; STR$ and PRINT '
+                 'proved to call it with the same (value, type); float digit generation (repr, round) only checked on enumerated values',
+     assumptions=['CPython repr(float), round(x, n), int(text), float(text)'],
+     not_covered=['SINGLE/DOUBLE digit correctness beyond the enumerated values', 'QBASIC vs Python numeral syntax for READ/INPUT/VAL'])
